@@ -445,7 +445,7 @@ fn run_exec(runner: &mut Runner, rep_local: &mut Report, text: &str, source: &st
         for lazy in [false, true] {
             let cfg = RunCfg { lazy, globals: globals.to_vec(), outer_globals: vec![], debug: None, cancel_at: None };
             let before = rep_local.failures.len();
-            let res = runner.check_mode(rep_local, &case, &cfg, false, false);
+            let res = runner.check_mode(rep_local, &case, &cfg, true, false);
             if let Some(m) = &res.model {
                 if let Some((mo, _, _)) = crate::props::c01::result_parts(m) {
                     let mc = crate::props::c01::outcome_class(mo);
